@@ -503,6 +503,22 @@ func (a *Authenticator) ClientHandshake(ctx context.Context) (*SecurityNegotiati
 				Reason:    "pre-registered session not found in cache",
 			}
 		}
+		// The same conditions as for a session found through the command map: a
+		// session stands in for a handshake only if it has a key (the server
+		// refuses to resume one without) and, with authentication REQUIRED, was
+		// authenticated when it was established.
+		if entry.KeyInfo() == nil || len(entry.KeyInfo().Data) == 0 {
+			return nil, &SessionResumptionError{
+				SessionID: a.config.SessionID,
+				Reason:    "pre-registered session has no key",
+			}
+		}
+		if a.config.Authentication == SecurityRequired && !sessionWasAuthenticated(entry) {
+			return nil, &SessionResumptionError{
+				SessionID: a.config.SessionID,
+				Reason:    "pre-registered session was not authenticated but authentication is REQUIRED",
+			}
+		}
 		slog.Info(fmt.Sprintf("🔐 CLIENT: Using pre-registered session %s (explicit SessionID)",
 			redactSessionID(entry.ID())), "destination", "cedar")
 		return a.resumeSession(ctx, entry, cache)
